@@ -1,6 +1,6 @@
 (* C12 — property theorems. This file contains nothing but the statements, each closed by
    `exact <lemma>` from Proofs.v, with Print Assumptions beneath, and the non-vacuity examples. *)
-From C12 Require Import Model Proofs.
+From C12 Require Import Model Proofs Lexer ProofsLexer.
 
 (* The rewriting that moves NOT operators (De Morgan / NAND fusion) does not change the selected
    set, and leaves NOT at most at the root — for every tree the parsers can build, every valuation. *)
@@ -44,3 +44,64 @@ Example C12_nonvacuous :
                                    (NAndN (NAndN (OrN (Leaf 1) (Leaf 2)) (Leaf 0)) (Leaf 0)))
   \/ exists t, parse (render_min e) = Ok t /\ no_nand (tree_of e).
 Proof. right. eexists. split. vm_compute. reflexivity. apply tree_of_no_nand. Qed.
+
+(* ---------------------------------------------------------------------------------------------
+   Stage 2: the SeqQL lexer and the glue between lexer and token-level parser, on RAW BYTES.
+   Lexer.v models lexer.Next (spaces, comments, simple tokens, the wildcard, the three quote kinds
+   with unquotePrefix fast/slow path, strconv.UnquoteChar, utf8.DecodeRuneInString), the field
+   filter / in(...) / range / pipes parsers over the lexer's tokens, and ParseSeqQL as their
+   composition with the token-level parser above. Go slice expressions with computed indices are
+   checked slices (out of range = RPanic); every loop has fuel (exhausted = RFuel).
+   Oracles: the Unicode class predicates (any functions that do not classify U+FFFD, which is what
+   utf8 returns at the end of the string and for invalid bytes - true of Go's tables and checked on
+   every generated case) and the field mapping (any function). *)
+
+(* For ALL byte strings the lexer produces its token list: fuel = length + 1 is never exhausted
+   (lex q is by definition lex_all (S (length q)) q) and no slice is out of range. *)
+Theorem C12_lex_total :
+  forall is_space is_letter is_digit : N -> bool,
+    is_space RuneError = false -> is_letter RuneError = false -> is_digit RuneError = false ->
+    forall q : bytes, exists ts, lex is_space is_letter is_digit q = ROk ts.
+Proof. exact lex_total. Qed.
+Print Assumptions C12_lex_total.
+
+(* The reason: one call of Next on a non-empty query tail always returns a token and a strictly
+   shorter tail (including the unterminated / escaped-quote cases of unquotePrefix). *)
+Theorem C12_lex_next_progress :
+  forall is_space is_letter is_digit : N -> bool,
+    is_space RuneError = false -> is_letter RuneError = false -> is_digit RuneError = false ->
+    forall (q : bytes) (sp : bool), q <> [] ->
+    exists t q', next is_space is_letter is_digit (S (length q)) q sp = ROk (t, q')
+                 /\ length q' < length q.
+Proof. exact next_progress. Qed.
+Print Assumptions C12_lex_next_progress.
+
+(* Lexer + glue + token-level parser (C12_parse_total_tokens) on ALL byte strings, ALL mappings:
+   the result is a query or an error - never a panic, never out of fuel. *)
+Theorem C12_lex_parse_total :
+  forall is_space is_letter is_digit : N -> bool,
+    is_space RuneError = false -> is_letter RuneError = false -> is_digit RuneError = false ->
+    forall (is_number : N -> bool) (ftype : bytes -> N) (q : bytes),
+    seqql_parse is_space is_letter is_digit is_number ftype q = RErr \/
+    exists a, seqql_parse is_space is_letter is_digit is_number ftype q = ROk a.
+Proof. exact seqql_parse_total. Qed.
+Print Assumptions C12_lex_parse_total.
+
+(* non-vacuity, with ASCII class functions and a mapping k = keyword, t = text:
+   k:"a\*b*" and not t:'x y' # c   parses; the unterminated  k:"a\"  lexes to six one-byte tokens
+   (the error path of unquotePrefix) and is a parse error, not a panic *)
+Definition ex_space (r : N) : bool := N.eqb r 32 || N.eqb r 10 || N.eqb r 9.
+Definition ex_letter (r : N) : bool := in_range 97 122 r || in_range 65 90 r.
+Definition ex_digit (r : N) : bool := in_range 48 57 r.
+Definition ex_ftype (f : bytes) : N :=
+  if bytes_eqb f [107%N] then 1%N else if bytes_eqb f [116%N] then 2%N else 0%N.
+Example C12_lex_nonvacuous :
+  seqql_parse ex_space ex_letter ex_digit ex_digit ex_ftype
+    [107; 58; 34; 97; 92; 42; 98; 42; 34; 32; 97; 110; 100; 32; 110; 111; 116; 32;
+     116; 58; 39; 120; 32; 121; 39; 32; 35; 32; 99]%N
+  = ROk (NAndN (AndN (Leaf 0) (Leaf 0)) (Leaf 0))
+  /\ option_map (@length ltok)
+       (match lex ex_space ex_letter ex_digit [107; 58; 34; 97; 92; 34]%N with
+        | ROk l => Some l | _ => None end) = Some 6
+  /\ seqql_parse ex_space ex_letter ex_digit ex_digit ex_ftype [107; 58; 34; 97; 92; 34]%N = RErr.
+Proof. vm_compute. repeat split. Qed.
